@@ -267,6 +267,8 @@ pub struct Exec {
     pub max_held: usize,
     /// (task name, message-id read) for every message a task took off the transport
     pub reads: Vec<(String, String)>,
+    /// (task name, panic message) of every task whose poll panicked
+    pub panics: Vec<(String, String)>,
 }
 
 #[derive(Debug, PartialEq, Eq)]
@@ -283,7 +285,7 @@ fn head(m: &[u8]) -> String {
 
 impl Exec {
     pub fn new(net: Shared, cfg: SchedCfg) -> Self {
-        Self { tasks: Vec::new(), net, spawner: Spawner::default(), cfg, drops_done: Vec::new(), steps: 0, max_held: 0, reads: Vec::new() }
+        Self { tasks: Vec::new(), net, spawner: Spawner::default(), cfg, drops_done: Vec::new(), steps: 0, max_held: 0, reads: Vec::new(), panics: Vec::new() }
     }
     pub fn spawn(&mut self, name: impl Into<String>, droppable: bool, f: impl Future<Output = ()> + Send + 'static) {
         self.tasks.push(Task { fut: Some(Box::pin(f)), flag: Arc::new(Flag(Mutex::new(true))), name: name.into(), droppable, polls: 0, dropped: false });
@@ -359,7 +361,19 @@ impl Exec {
                     let mut cx = Context::from_waker(&w);
                     t.polls += 1;
                     let before = self.net.lock().unwrap().recv_log.len();
-                    let r = t.fut.as_mut().unwrap().as_mut().poll(&mut cx);
+                    let fut = t.fut.as_mut().unwrap();
+                    let r = match std::panic::catch_unwind(std::panic::AssertUnwindSafe(|| fut.as_mut().poll(&mut cx))) {
+                        Ok(r) => r,
+                        Err(p) => {
+                            let msg = p
+                                .downcast_ref::<String>()
+                                .cloned()
+                                .or_else(|| p.downcast_ref::<&str>().map(|s| (*s).to_string()))
+                                .unwrap_or_else(|| "panic".into());
+                            self.panics.push((t.name.clone(), msg));
+                            Poll::Ready(())
+                        }
+                    };
                     let new_reads: Vec<String> = self.net.lock().unwrap().recv_log[before..].to_vec();
                     let done = r.is_ready();
                     if done {
@@ -450,4 +464,38 @@ pub fn message_id_of(msg: &str) -> Option<String> {
 
 pub fn reply(id: &str, body: &str) -> Vec<u8> {
     format!("<rpc-reply message-id=\"{id}\" xmlns=\"{NS_BASE}\">{body}</rpc-reply>{MARKER}").into_bytes()
+}
+
+/// Build a net with `server`, optionally pre-queue a server hello, run `main` (plus whatever it
+/// spawns) to quiescence under `cfg`.
+pub fn drive(
+    ctx: &mut Ctx,
+    server: Box<dyn Server>,
+    hello: Option<Vec<u8>>,
+    cfg: SchedCfg,
+    main: impl FnOnce(Shared, Spawner) -> BoxFut,
+) -> (Quiescence, Exec) {
+    let net = Net::new(server);
+    if let Some(h) = hello {
+        net.lock().unwrap().push_held(h);
+    }
+    let mut exec = Exec::new(net.clone(), cfg);
+    let spawner = exec.spawner.clone();
+    let fut = main(net, spawner);
+    exec.spawn("main", false, fut);
+    let q = exec.run(ctx);
+    (q, exec)
+}
+
+/// Silence the default panic hook for panics that the simulators catch on purpose.
+pub fn quiet_panics() {
+    static ONCE: std::sync::Once = std::sync::Once::new();
+    ONCE.call_once(|| {
+        let default = std::panic::take_hook();
+        std::panic::set_hook(Box::new(move |info| {
+            if std::env::var_os("VERIF_SHOW_PANICS").is_some() {
+                default(info);
+            }
+        }));
+    });
 }
